@@ -37,7 +37,8 @@ import (
 const preamble = `/A [1 2 3] def /B 5 array def /S (a` + "\xe9" + `c) def /T 4 string def ` +
 	`/D 3 dict def D /x 1 put /E << /x 2 /y (s) >> def /P {1 add} def /Q {pop} def ` +
 	`/count 99 def ` + // an operator name shadowed in userdict: lookups must find the topmost definition
-	`/ E /Font defineresource pop / 7 def` // the empty name is a name like any other: a font and a value are known under it
+	`/ E /Font defineresource pop / 7 def ` + // the empty name is a name like any other: a font and a value are known under it
+	`/R {(xyz)} def` // a string literal inside a procedure body: every run of the body pushes the same string object
 
 var pool = []string{
 	// integers incl. boundaries
@@ -66,6 +67,9 @@ var pool = []string{
 	"<< /a 1 /b 2 /a 3 >>", "[ 70 {7} repeat ]", "<< 0 1 69 { dup } for >>",
 	// procedures, mark
 	"/P load", "/Q load", "{}", "mark",
+	// a mark pushed by `<<` is a mark like any other (`]`, cleartomark and counttomark find it);
+	// the string that a procedure body holds (writing to it changes what the next run pushes)
+	"<<", "R",
 	// the interpreter's own shared-looking objects as operands (they are per
 	// instance: whatever one program stores there must not be visible to the
 	// fresh interpreter of the next execution)
@@ -73,7 +77,7 @@ var pool = []string{
 }
 
 // quickPool indexes the pool entries used for the largest arity.
-var smallPool = []string{"0", "1", "-1", "3", "9223372036854775807", "-9223372036854775808", "0.5", "true", "/x", "/count", "S", "S 1 2 getinterval", "S 0 2 getinterval", "A", "A 1 2 getinterval", "A 0 2 getinterval", "D", "E", "/P load", "{}", "mark", "StandardEncoding", "systemdict"}
+var smallPool = []string{"0", "1", "-1", "3", "9223372036854775807", "-9223372036854775808", "0.5", "true", "/x", "/count", "S", "S 1 2 getinterval", "S 0 2 getinterval", "A", "A 1 2 getinterval", "A 0 2 getinterval", "D", "E", "/P load", "{}", "mark", "<<", "R", "StandardEncoding", "systemdict"}
 
 var operators = func() []string {
 	var ops []string
